@@ -198,6 +198,7 @@ def main_c19(tier):
         "known_findings_hit": known,
         "violation_signatures": len(sigs) + len(sv),
         "workers": int(os.environ.get("VERIF_WORKERS", "16")),
+        "report_digest": digest([r["digest"] for r in recs], [r["digest"] for r in sweep_recs]),
     }
     write_evidence("C19", tier, seed, "fault_enumeration", coverage, wall, len(reported), [
         "damage is to stored/in-flight bytes only; I/O errors (EIO, ENOSPC, EPIPE, EINTR) are "
@@ -205,6 +206,7 @@ def main_c19(tier):
         "the step clock sees Python loops of the coco package, not C loops in zlib/PIL/pypng",
         "success/failure classification follows DESIGN.md section 2 (process exit emulation)",
     ])
+    say("REPORT-DIGEST C19 %s" % coverage["report_digest"])
     say("C19 %s: %d runs (+%d sweep), %d violation signature(s), known=%s, %.1fs" %
         (tier, len(recs), len(sweep_recs), len(reported), known, wall))
     return EXIT_VIOLATION if reported else EXIT_OK
@@ -341,6 +343,8 @@ def main_c18(tier):
         "traces_validated_against_impl": fid_n,
         "known_findings_hit": known,
         "violation_signatures": len(reported),
+        "report_digest": digest([[x["digest"] for x in r["runs"]] for r in recs],
+                                [(r["fmt"], r["w"], r["r"], r["s"], r["mode"], r["problems"]) for r in sweep]),
     }
     write_evidence("C18", tier, seed, "exploration", coverage, wall, len(reported), [
         "well-formed means produced by the reference encoders of sim/formats.py (DESIGN.md "
@@ -349,6 +353,7 @@ def main_c18(tier):
         "but has no pixel branch, and the property's 'supported layout' does not clearly cover it",
         "640-wide VEF output may be 640x200 or 640x400 (the tool announces the resize)",
     ])
+    say("REPORT-DIGEST C18 %s" % coverage["report_digest"])
     say("C18 %s: %d cases, %d runs (+%d sweep cases), %d violation signature(s), known=%s, %.1fs" %
         (tier, len(recs), nruns, len(sweep), len(reported), known, wall))
     return EXIT_VIOLATION if reported else EXIT_OK
